@@ -690,6 +690,89 @@ def library_view(c, iso, iso_m, content_m, contents, jol_m=None):
     return And(*ok) if ok else True
 
 
+def library_details(c, iso, kw, iso_m, jol_m, rr_m, hidden_m, sym_m, umodel, content_m, contents):
+    """the library's own answers about single entries of an opened image: lookups by Rock Ridge and UDF path, the bytes read through
+    them, hidden flags, symbolic links and their targets, and the path the library reports for a record it handed out"""
+    def rr_path(p):
+        parts = [x for x in p.split('/') if x]
+        return ''.join('/' + rr_m['/' + '/'.join(parts[:i + 1])] for i in range(len(parts)))
+
+    def read(**k):
+        out = c.file(b'')
+        S.call(c, iso, 'get_file_from_iso_fp', out, **k)
+        return V.mk_bytes(out.items) if c.symbolic else out.getvalue()
+
+    def meth(rec, name, *args):
+        return c.it.call(c.it.getattr(rec, name), list(args), {}) if c.symbolic else getattr(rec, name)(*args)
+    cl = {}
+    relocating = 'rock_ridge' in kw and any(p.count('/') >= 8 for p in iso_m)
+    if 'rock_ridge' in kw:
+        ok, paths = [], []
+        for p, v in sorted(iso_m.items()):
+            rec = S.call(c, iso, 'get_record', rr_path=rr_path(p))
+            ok.append(bool(meth(rec, 'is_symlink')) == (v[0] == 'symlink') and bool(meth(rec, 'is_dir')) == (v[0] == 'dir'))
+            if v[0] == 'file':
+                ok.append(Eq(read(rr_path=rr_path(p)), contents[v[1]]))
+            if v[0] == 'symlink':
+                rr = rec.rock_ridge if not c.symbolic else c.it.getattr(rec, 'rock_ridge')
+                ok.append(meth(rr, 'symlink_path') == sym_m[p].encode())
+            paths.append(S.call(c, iso, 'full_path_from_dirrecord', rec, rockridge=True) == rr_path(p))
+        cl['rock-ridge-lookups'] = And(*ok) if ok else True
+        cl['rock-ridge-paths-of-records'] = all(paths)
+    if not relocating:
+        ok = []
+        for p, v in sorted(iso_m.items()):
+            rec = S.call(c, iso, 'get_record', iso_path=p)
+            flags = rec.file_flags if not c.symbolic else c.it.getattr(rec, 'file_flags')
+            ok.append(bool(flags & 1) == (p in hidden_m))
+            ok.append(S.call(c, iso, 'full_path_from_dirrecord', rec) == p)
+        cl['iso9660-hidden-flags-and-paths-of-records'] = all(ok)
+    if 'joliet' in kw:
+        cl['joliet-paths-of-records'] = all(S.call(c, iso, 'full_path_from_dirrecord', S.call(c, iso, 'get_record', joliet_path=p)) == p for p in sorted(jol_m))
+    if 'udf' in kw:
+        ok = []
+        for p, v in sorted(umodel.items()):
+            rec = S.call(c, iso, 'get_record', udf_path=p)
+            ok.append(S.call(c, iso, 'full_path_from_dirrecord', rec) == p)
+            if v[0] == 'file':
+                ok.append(Eq(read(udf_path=p), contents[v[1]]))
+        cl['udf-lookups'] = And(*ok) if ok else True
+    return cl
+
+
+def library_listing(c, iso, kw, iso_m, jol_m, rr_m, umodel):
+    """what PyCdlib.walk() lists in each namespace of an image against the model: exactly the expected directories and files,
+    nothing else (the Rock Ridge holding directory rr_moved, which Rock Ridge readers do show, aside)"""
+    def listing(**k):
+        dirs, files = set(), set()
+        for dn, dl, fl in S.call(c, iso, 'walk', **k):
+            for d in dl:
+                dirs.add(dn.rstrip('/') + '/' + d)
+            for f in fl:
+                files.add(dn.rstrip('/') + '/' + f)
+        return dirs, files
+
+    def rr_path(p):
+        parts = [x for x in p.split('/') if x]
+        return ''.join('/' + rr_m['/' + '/'.join(parts[:i + 1])] for i in range(len(parts)))
+    cl = {}
+    relocating = 'rock_ridge' in kw and any(p.count('/') >= 8 for p in iso_m)
+    if not relocating:
+        d, f = listing(iso_path='/')
+        cl['iso9660'] = d == {p for p, v in iso_m.items() if v[0] == 'dir'} and f == {p for p, v in iso_m.items() if v[0] != 'dir'}
+    if 'rock_ridge' in kw:
+        d, f = listing(rr_path='/')
+        cl['rock-ridge'] = d - {'/rr_moved'} == {rr_path(p) for p, v in iso_m.items() if v[0] == 'dir'} and \
+            f == {rr_path(p) for p, v in iso_m.items() if v[0] != 'dir'}
+    if 'joliet' in kw:
+        d, f = listing(joliet_path='/')
+        cl['joliet'] = d == {p for p, v in jol_m.items() if v[0] == 'dir'} and f == {p for p, v in jol_m.items() if v[0] != 'dir'}
+    if 'udf' in kw:
+        d, f = listing(udf_path='/')
+        cl['udf'] = d == {p for p, v in umodel.items() if v[0] == 'dir'} and f == {p for p, v in umodel.items() if v[0] != 'dir'}
+    return cl
+
+
 @contract
 class Reopened(Base):
     """C01 (the library can open what it wrote) + C05 (re-mastering is a fixpoint) + C02 (editing an opened image preserves the
@@ -718,6 +801,16 @@ class Reopened(Base):
         iso_m, jol_m, rr_m, hidden_m, sym_m, content_m = model_of(script)
         cl = {}
         cl['library-shows-the-expected-entries-and-bytes'] = library_view(c, a.re, {p: v for p, v in iso_m.items() if v[0] != 'symlink'}, content_m, a.contents, jol_m)
+        good, lst = S.try_call(c, lambda: library_listing(c, a.re, kw, iso_m, jol_m, rr_m, udf_model_of(script) if 'udf' in kw else {}))
+        cl['library-walk-succeeds'] = good
+        if good:
+            for ns, v in lst.items():
+                cl['library-lists-exactly-the-expected-entries:' + ns] = v
+        good, det = S.try_call(c, lambda: library_details(c, a.re, kw, iso_m, jol_m, rr_m, hidden_m, sym_m, udf_model_of(script) if 'udf' in kw else {}, content_m, a.contents))
+        cl['library-lookups-succeed'] = good
+        if good:
+            for k_, v in det.items():
+                cl['library-answers:' + k_] = v
         ok, again = S.try_call(c, lambda: S.written(c, a.re))
         cl['remastering-succeeds'] = ok
         if ok:
